@@ -100,6 +100,39 @@ def handleSync (c : J) : Res := Id.run do
     if x.isWrite && !x.ok then r := tag r ("failed-" ++ x.verb)
     if x.isHook then r := tag r ("hook-" ++ x.hook)
   r := tag r ("outcome-" ++ result.getStr "outcome")
+  -- which decisions the case exercised (input distribution, printed into the evidence; no verdict depends on it)
+  if s.composite then
+    match s.parent, selectorOfCase s with
+    | some p, some sel =>
+        r := tag r (if isDeleting p then "parent-deleting" else "parent-alive")
+        if hasFinalizer p s.finalizerName != s.finalizeEnabled then r := tag r (if s.finalizeEnabled then "finalizer-to-add" else "finalizer-to-remove")
+        for g in s.cache.children do
+          for o in g.2 do
+            let dec := claimDecision (getUID p) (isDeleting p) (sel.matches (labelsOf o)) o
+            r := tag r (match dec with
+              | .keep => "claim-keep" | .adopt => "claim-adopt" | .release => "claim-release"
+              | .ignore => if (controllerOf o).isSome then "claim-ignore-foreign" else "claim-ignore-orphan")
+    | _, _ => pure ()
+  match s.mainHook with
+  | some h =>
+      if !(s.composite && (s.cfg.ssa || s.cfg.anyRolling)) then
+        let observed := (flatHookObjects (s.hookChildren h)).map (·.2.2)
+        let desired := desiredCompared s h
+        for d in desired do
+          if !(observed.any (sameObject d)) then r := tag r "child-missing"
+        for o in observed do
+          match desired.find? (sameObject o) with
+          | none => r := tag r (if isDeleting o then "child-undesired-pending-deletion" else "child-undesired")
+          | some d =>
+              let (g, _) := parseAPIVersion (getAPIVersion o)
+              let method := methodOfCase s g (getKind o)
+              match applyUpdate Generated.knownMergeKeys Generated.objectMetaSystemFields o d with
+              | .error _ => r := tag r "child-merge-error"
+              | .ok n =>
+                  if n.eqv o then r := tag r "child-equal"
+                  else if isDeleting o then r := tag r "child-differs-pending-deletion"
+                  else r := tag r ("child-differs-" ++ (if method == "" then "nostrategy" else method))
+  | none => pure ()
   -- which states of the rollout gate the case reached (coverage of C07/C08, printed into the evidence)
   match rollView s with
   | none => pure ()
